@@ -55,6 +55,17 @@ def pool_specs(dt="f8"):
                                                                    {"k": "Annot", "name": "Stiefel", "arg": dict(D(35, 2, 2), gen="orth")}]},
         "UnitaryGeneric": {"k": "Annot", "name": "Unitary", "arg": {"k": "Generic", "shape": [N, N], "dt": dt, "seed": 36, "gen": "orth"}},
         "SelfAdjointGeneric": {"k": "Annot", "name": "SelfAdjoint", "arg": {"k": "Generic", "shape": [N, N], "dt": dt, "seed": 37, "gen": "herm"}},
+        # composites whose first / last part hands its operand back unchanged (Identity @ x is x itself): an in-place
+        # accumulation in the composite would then write into the caller's array
+        "SumIdentityFirst": {"k": "Sum", "via": "ctor", "args": [{"k": "Identity", "n": N, "dt": dt}, D(40)]},
+        "SumIdentityLast": {"k": "Sum", "via": "ctor", "args": [D(41), {"k": "Identity", "n": N, "dt": dt}]},
+        "SumIdentityFirst3": {"k": "Sum", "via": "ctor", "args": [{"k": "Identity", "n": N, "dt": dt}, D(42), {"k": "Diagonal", "n": N, "dt": dt, "seed": 43}]},
+        "ProductIdentityFirst": {"k": "Product", "via": "ctor", "args": [{"k": "Identity", "n": N, "dt": dt}, D(44)]},
+        "ProductIdentityLast": {"k": "Product", "via": "ctor", "args": [D(45), {"k": "Identity", "n": N, "dt": dt}]},
+        "KronIdentities": {"k": "Kronecker", "via": "ctor", "args": [{"k": "Identity", "n": 2, "dt": dt}, {"k": "Identity", "n": 2, "dt": dt}]},
+        "SumKronIdentitiesFirst": {"k": "Sum", "via": "ctor", "args": [
+            {"k": "Kronecker", "via": "ctor", "args": [{"k": "Identity", "n": 2, "dt": dt}, {"k": "Identity", "n": 2, "dt": dt}]}, D(46)]},
+        "BlockDiagIdentityFirst": {"k": "BlockDiag", "via": "ctor", "mult": [1, 1], "args": [{"k": "Identity", "n": 2, "dt": dt}, D(47, 2, 2)]},
         "PSDKron": {"k": "Kronecker", "via": "ctor", "args": [
             {"k": "Annot", "name": "PSD", "arg": dict(D(38, 2, 2), gen="herm", eigs=[1.0, 2.0])},
             {"k": "Annot", "name": "PSD", "arg": dict(D(39, 2, 2), gen="herm", eigs=[1.5, 3.0])}]},
